@@ -67,7 +67,7 @@ def compare(impl_path, model_path, cases_path=None, drop_nodes_fn=None):
 def kv_drop_nodes(case_line):
     t = case_line.split()
     # "<id> kvhist <mode> <bf> ..."
-    return len(t) > 3 and t[1] == 'kvhist' and (int(t[3]) < 4096 or t[2] == 'rows')
+    return len(t) > 3 and t[1] == 'kvhist' and (int(t[3]) < 4096 or t[2] in ('rows', 'json'))  # (json: a reloaded tombstone re-marshals to other bytes)
 
 if __name__ == '__main__':
     n, mism = compare(sys.argv[1], sys.argv[2], sys.argv[3] if len(sys.argv) > 3 else None, kv_drop_nodes)
